@@ -109,6 +109,9 @@ Fixpoint take (n : N) (b : bytes) {struct b} : option (bytes * bytes) :=
 Inductive harg := ArgN (n : N) | ArgIndef.
 
 (** [Decoder::pull_title]: (major type, additional info, argument, rest). *)
+Definition arg_len (ai : N) : N :=
+  if ai =? 24 then 1 else if ai =? 25 then 2 else if ai =? 26 then 4 else 8.
+
 Definition head_decode (b : bytes) : option (N * N * harg * bytes) :=
   match b with
   | [] => None
@@ -117,14 +120,12 @@ Definition head_decode (b : bytes) : option (N * N * harg * bytes) :=
       let ai := x mod 32 in
       if 8 <=? mt then None
       else if ai <? 24 then Some (mt, ai, ArgN ai, r)
+      else if ai =? 31 then Some (mt, ai, ArgIndef, r)
+      else if 28 <=? ai then None
       else
-        match ai with
-        | 24 => match take 1 r with Some (a, r') => Some (mt, ai, ArgN (be_val 0 a), r') | None => None end
-        | 25 => match take 2 r with Some (a, r') => Some (mt, ai, ArgN (be_val 0 a), r') | None => None end
-        | 26 => match take 4 r with Some (a, r') => Some (mt, ai, ArgN (be_val 0 a), r') | None => None end
-        | 27 => match take 8 r with Some (a, r') => Some (mt, ai, ArgN (be_val 0 a), r') | None => None end
-        | 31 => Some (mt, ai, ArgIndef, r)
-        | _ => None
+        match take (arg_len ai) r with
+        | Some (a, r') => Some (mt, ai, ArgN (be_val 0 a), r')
+        | None => None
         end
   end.
 
@@ -188,6 +189,13 @@ Fixpoint cbor_encode (v : cbor) : bytes :=
 (** ** Decoder *)
 Definition cbor_fuel : nat := 257.    (* ciborium's [from_reader]: recursion limit 256 *)
 
+(** the break byte [ff] *)
+Definition is_break (b : bytes) : option bytes :=
+  match b with
+  | x :: r => if x =? 255 then Some r else None
+  | [] => None
+  end.
+
 Section Items.
   Variable d : bytes -> option (cbor * bytes).
 
@@ -230,9 +238,9 @@ Section Items.
     match k with
     | O => None
     | S k' =>
-        match b with
-        | 255 :: r => Some ([], r)
-        | _ =>
+        match is_break b with
+        | Some r => Some ([], r)
+        | None =>
             match d b with
             | None => None
             | Some (v, r) =>
@@ -248,9 +256,9 @@ Section Items.
     match k with
     | O => None
     | S k' =>
-        match b with
-        | 255 :: r => Some ([], r)
-        | _ =>
+        match is_break b with
+        | Some r => Some ([], r)
+        | None =>
             match d b with
             | None => None
             | Some (key, r) =>
@@ -312,18 +320,16 @@ Fixpoint strip_zeros (b : bytes) : bytes :=
 Definition bignum_shape (t : N) (b : bytes) : option (N * bytes) :=
   if (t =? 2) || (t =? 3) then
     match head_decode b with
-    | Some (2, _, ArgN len, r) => if len <=? 16 then Some (len, r) else None
+    | Some (mt, _, ArgN len, r) => if (mt =? 2) && (len <=? 16) then Some (len, r) else None
     | _ => None
     end
   else None.
 
 Definition simple_value (n : N) (r : bytes) : option (cbor * bytes) :=
-  match n with
-  | 20 => Some (CBool false, r)
-  | 21 => Some (CBool true, r)
-  | 22 | 23 => Some (CNull, r)
-  | _ => None
-  end.
+  if n =? 20 then Some (CBool false, r)
+  else if n =? 21 then Some (CBool true, r)
+  else if (n =? 22) || (n =? 23) then Some (CNull, r)
+  else None.
 
 Fixpoint cbor_decode (fuel : nat) (b : bytes) : option (cbor * bytes) :=
   match fuel with
@@ -425,12 +431,10 @@ Fixpoint cbor_decode (fuel : nat) (b : bytes) : option (cbor * bytes) :=
               match arg with
               | ArgIndef => None            (* break where an item is expected *)
               | ArgN n =>
-                  match ai with
-                  | 25 => Some (CFloat 2 n, r)
-                  | 26 => Some (CFloat 4 n, r)
-                  | 27 => Some (CFloat 8 n, r)
-                  | _ => simple_value n r
-                  end
+                  if ai =? 25 then Some (CFloat 2 n, r)
+                  else if ai =? 26 then Some (CFloat 4 n, r)
+                  else if ai =? 27 then Some (CFloat 8 n, r)
+                  else simple_value n r
               end
           | _ => None
           end
